@@ -53,5 +53,15 @@ CLAIMED = {
   "note": "The serialisers reproduce all 8 real pm1/pm2 members of the repository byte for byte.",
   "technique": "Spec-encoder round trip on the C (direct oracle) + differential run; proofs in progress",
  },
+ "C08": {
+  "text": "Theorems header_parser_never_faults / archive_iteration_no_fault: for EVERY byte string, stream kind and mktime, the models of the input stream (incl. the self-extractor scan), the header parser for all four levels with every extended-header decoder, and the basic reader never perform an out-of-range access; *_returns: they return on every stream < 12 MiB (model fuel of the level-1 extended-header walk; unconditional for levels 0, 2, 3), skips return for amounts < 2^40. Decompressors: C09. lha_reader, extraction and the tool itself: sanitizer oracle and correspondence only (no theorem yet).",
+  "note": "Tool runs as uid 65534 in a scratch directory with the sanitizer build in modes l v lv vv t p xn x xq2f e; 'never aborts' for causes outside the model (stack exhaustion in match_glob, exit(-1) on malloc failure in src/) is tested, not proved.",
+  "technique": "Coq proof (no reachable Fault; loop measures); three-stream differential run + sanitizer oracle on library driver and tool",
+ },
+ "C16": {
+  "text": "Theorems sfx_prefix_skipped (any prefix < 262152 bytes with no match/marker position before |P| in P++A leaves the stream exactly at A), sfx_one_decoy (marker + exactly one decoy), scan_independent_of_kind (the four stream kinds scan and read identically), sfx_prefix_skipped_any_chunking (any short-read pattern, headers below 256 KiB), sfx_literal_reading_refuted (the literal reading 'P contains no signature' is insufficient: known finding, witness zz-lh + archive with '-' as second byte). Closed under the global context. Equality of member data/verdicts across kinds beyond the scan rests on the correspondence and the tool oracle.",
+  "note": "KNOWN_FINDINGS.txt lists the straddle finding (signature = a match position p < |P| with p + 7 > |P|); any other prefix failure is a violation.",
+  "technique": "Coq proof (scan-window invariant: every position examined exactly once); differential run over four real stream kinds, prefix families, decoys; tool file-vs-stdin oracle",
+ },
 }
 NOT_APPLICABLE = {("C%02d" % i): _PENDING for i in range(1, 21) if ("C%02d" % i) not in CLAIMED}
